@@ -98,6 +98,11 @@ def execute(case):
     cur = [dict(e) for e in case["cyc"]]
     off = case["off"]
     obj = warm
+    # ... also when the cycle is owned by a light that was asked for the very same time step just before the edit
+    # (no other query in between: an answer remembered by the light must not survive an edit of its cycle)
+    owner = TrafficLight(5, np.array([0.0, 0.0]), obj)
+    last_t = ts[-1]
+    ev.append(dict(base, op="light_state", t=last_t, res=_q(owner, last_t), sig="light/owner"))
     steps = [("duration", 0), ("append", 0), ("offset", 0), ("duration", -1), ("pop", 0)]
     for kind, idx in steps:
         if kind == "duration":
@@ -116,8 +121,11 @@ def execute(case):
             obj.time_offset = off
         b2 = {"cyc": [dict(e) for e in cur], "off": off}
         tot = sum(e["d"] for e in cur)
+        ev.append(dict(b2, op="light_state", t=last_t, res=_q(owner, last_t), sig="light/owner/same-step-after-" + kind))
         for t in range(max(0, off - 2), off + tot + 2):
             ev.append(dict(b2, op="cycle_state", t=t, res=_q(obj, t), sig="after-" + kind))
+            ev.append(dict(b2, op="light_state", t=t, res=_q(owner, t), sig="light/owner/after-" + kind))
+            last_t = t
     return {"ev": ev}
 
 
